@@ -122,7 +122,7 @@ def check_zero_guards(ctx):
                 if not idx:
                     continue
                 npaths += 1
-                lits = [(A.src(t), pol) for t, pol in P.Path(p.ev[:idx[0]]).literals()]
+                lits = [(A.norm_src(t), pol) for t, pol in P.Path(p.ev[:idx[0]]).literals()]
                 ok = (dsrc, True) in lits or ("%s == 0" % dsrc, False) in lits or ("%s != 0" % dsrc, True) in lits
                 if not ok:
                     ok_all = False
@@ -134,11 +134,24 @@ def check_zero_guards(ctx):
             if ok_all and npaths:
                 n += 1
                 ctx.ok("C12-a", d, "%s: `/ %s` dominated by a zero test on %d paths" % (qual, dsrc, npaths))
-            # the guarding branch raises LenaValueError
-            guards = [i for i in A.walk_local(fn) if isinstance(i, ast.If) and A.src(i.test) in ("not %s" % dsrc, "%s == 0" % dsrc)]
-            okr = bool(guards) and all(any(isinstance(r, ast.Raise) and r.exc is not None and
-                                           res.canon(r.exc.func if isinstance(r.exc, ast.Call) else r.exc) == LVE for r in g.body) for g in guards)
-            ctx.check("C12-a", okr, fn, "%s: the zero test on `%s` does not raise LenaValueError" % (qual, dsrc),
+            # every path that finds the divisor zero (or falsy) leaves through LenaValueError -- read off the paths, so the
+            # spelling of the test (`x == 0`, `0 == x`, `not x`, a negated if with swapped branches) does not matter
+            n_zero = 0
+            okr = True
+            for p in P.paths_of(fn):
+                zero = False
+                for t, pol in p.literals():
+                    ns = A.norm_src(t)
+                    if (ns == dsrc and pol is False) or (ns == "%s == 0" % dsrc and pol is True) or (ns == "%s != 0" % dsrc and pol is False):
+                        zero = True
+                if not zero:
+                    continue
+                n_zero += 1
+                rs = [x for x in p.stmts() if isinstance(x, ast.Raise)]
+                good = p.end == "raise" and rs and rs[-1].exc is not None and \
+                    res.canon(rs[-1].exc.func if isinstance(rs[-1].exc, ast.Call) else rs[-1].exc) == LVE
+                okr = okr and bool(good)
+            ctx.check("C12-a", okr and n_zero >= 1, fn, "%s: the zero test on `%s` does not raise LenaValueError" % (qual, dsrc),
                       detail="%s: zero %s raises LenaValueError" % (qual, dsrc), construct="zero-raise:%s" % dkey)
     ctx.instances_floor("C12-a", n, 4, "guarded divisions")
 
